@@ -193,7 +193,7 @@ func c27Cases(thorough bool) []c27Case {
 							g.add("voteproof",
 								fmt.Sprintf("%s,%s,%s,voters=%d,expels=%d,%s", stage, variant, result, nvoters, nexp, c27opt(finished, "finished")),
 								vfxVPHint(stage, variant), c27Doc, func() any {
-									return c27Voteproof(stage, variant, result, nvoters, nexp, finished)
+									return vfxShapeVoteproof(stage, variant, result, nvoters, nexp, finished)
 								})
 						}
 					}
@@ -556,68 +556,6 @@ func c27Cases(thorough bool) []c27Case {
 	_ = thorough
 
 	return g.cases
-}
-
-// c27Voteproof builds one voteproof shape.
-//
-//	majority         : all voters sign the same plain fact (INIT / ACCEPT), which is the majority
-//	majority-special : the majority fact is a suffrage-confirm (INIT) / not-processed (ACCEPT) fact
-//	draw             : voters sign the same fact, no majority set (stuck voteproofs are always this)
-//	split            : each voter signs a different fact (also an empty-proposal / empty-operations one), no majority
-func c27Voteproof(stage base.Stage, variant, result string, nvoters, nexp int, finished bool) base.Voteproof {
-	point := base.RawPoint(33, 1)
-	expels := vfxExpels(nexp, 33)
-	efs := vfxExpelFactHashes(expels)
-
-	mk := func(i int) base.BallotFact {
-		l := fmt.Sprintf("-%d", i)
-
-		switch {
-		case stage == base.StageINIT && i == 2:
-			return isaac.NewEmptyProposalINITBallotFact(point, vfxH("block-32"), vfxH("proposal"+l))
-		case stage == base.StageINIT:
-			return isaac.NewINITBallotFact(point, vfxH("block-32"), vfxH("proposal"+l), efs)
-		case i == 2:
-			return isaac.NewEmptyOperationsACCEPTBallotFact(point, vfxH("proposal"+l))
-		default:
-			return isaac.NewACCEPTBallotFact(point, vfxH("proposal"), vfxH("block"+l), efs)
-		}
-	}
-
-	var fact base.BallotFact
-
-	switch {
-	case result == "majority-special" && stage == base.StageINIT:
-		e := efs
-		if len(e) < 1 {
-			e = vfxHs("expelfact", 1)
-		}
-
-		fact = isaac.NewSuffrageConfirmBallotFact(point, vfxH("block-32"), vfxH("proposal"), e)
-	case result == "majority-special":
-		fact = isaac.NewNotProcessedACCEPTBallotFact(point, vfxH("proposal"))
-	default:
-		fact = mk(0)
-	}
-
-	sfs := make([]base.BallotSignFact, nvoters)
-	for i := range sfs {
-		f := fact
-		if result == "split" {
-			f = mk(i)
-		}
-
-		sfs[i] = vfxSignFact(f, vfxN(i), true)
-	}
-
-	var majority base.BallotFact
-	if strings.HasPrefix(result, "majority") {
-		majority = fact
-	}
-
-	return vfxVoteproof(vfxVP{
-		stage: stage, variant: variant, point: point, majority: majority, sfs: sfs, expels: expels, nofinish: !finished,
-	})
 }
 
 func c27HeaderCases(g *c27Gen) {
@@ -1305,7 +1243,7 @@ func c27Check(t *testing.T, r *vlib.Run, enc *jsonenc.Encoder, c c27Case) {
 		}
 
 		r.Outcome("violation:" + kind)
-		r.Violation(c.id, sig, fmt.Sprintf("%s: %s; encoded=%s", c.id, detail, c27short(b)), map[string]any{"case": c.id})
+		r.Violation(c.id, sig, fmt.Sprintf("%s: %s; encoded=%s", c.id, detail, vfxShort(b)), map[string]any{"case": c.id})
 	}
 
 	// vx: "valid" | "invalid" | "panic" | "n/a" (no IsValid method: judged like a valid object)
@@ -1314,7 +1252,7 @@ func c27Check(t *testing.T, r *vlib.Run, enc *jsonenc.Encoder, c c27Case) {
 
 	if vx == "panic" {
 		r.Add("isvalid_panics_on_constructed."+ty, 1)
-		r.Sample(map[string]any{"case": c.id, "isvalid_panic": c27short([]byte(dx))})
+		r.Sample(map[string]any{"case": c.id, "isvalid_panic": vfxShort([]byte(dx))})
 	}
 
 	b1, err := enc.Marshal(x)
@@ -1352,7 +1290,7 @@ func c27Check(t *testing.T, r *vlib.Run, enc *jsonenc.Encoder, c c27Case) {
 		return
 	case err != nil:
 		r.Outcome(vx + ":undecodable")
-		r.Sample(map[string]any{"case": c.id, "verdict": vx, "why": c27short([]byte(dx)), "decode_error": c27short([]byte(err.Error()))})
+		r.Sample(map[string]any{"case": c.id, "verdict": vx, "why": vfxShort([]byte(dx)), "decode_error": vfxShort([]byte(err.Error()))})
 
 		return
 	case y == nil:
@@ -1399,7 +1337,7 @@ func c27Check(t *testing.T, r *vlib.Run, enc *jsonenc.Encoder, c c27Case) {
 
 	if hx, has := c27Hash(x); has {
 		if hy, _ := c27Hash(y); hx != hy {
-			diff("hash-differs", "", fmt.Sprintf("hash %s before, %s after decode", c27short([]byte(hx)), c27short([]byte(hy))))
+			diff("hash-differs", "", fmt.Sprintf("hash %s before, %s after decode", vfxShort([]byte(hx)), vfxShort([]byte(hy))))
 		}
 	}
 
@@ -1410,7 +1348,7 @@ func c27Check(t *testing.T, r *vlib.Run, enc *jsonenc.Encoder, c c27Case) {
 	case vx == "invalid" && vy == "panic", vx == "panic" && vy == "invalid":
 		// both rejected; a panic of IsValid on a decoded document is reported separately
 	default:
-		vio("verdict-differs", "", fmt.Sprintf("IsValid %s(%s) before, %s(%s) after decode", vx, c27short([]byte(dx)), vy, c27short([]byte(dy))), b1)
+		vio("verdict-differs", "", fmt.Sprintf("IsValid %s(%s) before, %s(%s) after decode", vx, vfxShort([]byte(dx)), vy, vfxShort([]byte(dy))), b1)
 
 		ok = false
 	}
@@ -1418,7 +1356,7 @@ func c27Check(t *testing.T, r *vlib.Run, enc *jsonenc.Encoder, c c27Case) {
 	if vy == "panic" {
 		// reachable from the wire: a peer can send these bytes
 		r.Add("isvalid_panics_on_decoded."+ty, 1)
-		r.Sample(map[string]any{"case": c.id, "isvalid_panic_on_decoded_document": c27short([]byte(dy))})
+		r.Sample(map[string]any{"case": c.id, "isvalid_panic_on_decoded_document": vfxShort([]byte(dy))})
 	}
 
 	b2, err := enc.Marshal(y)
@@ -1430,9 +1368,9 @@ func c27Check(t *testing.T, r *vlib.Run, enc *jsonenc.Encoder, c c27Case) {
 		switch f := c27DiffPath(b1, b2); f {
 		case "":
 			// same JSON value, different bytes: only the member order differs
-			diff("reencode-member-order-differs", "", fmt.Sprintf("re-encoded bytes hold the same JSON value in a different member order: reencoded=%s", c27short(b2)))
+			diff("reencode-member-order-differs", "", fmt.Sprintf("re-encoded bytes hold the same JSON value in a different member order: reencoded=%s", vfxShort(b2)))
 		default:
-			diff("reencode-differs", f, fmt.Sprintf("re-encoded bytes differ at %q: reencoded=%s", f, c27short(b2)))
+			diff("reencode-differs", f, fmt.Sprintf("re-encoded bytes differ at %q: reencoded=%s", f, vfxShort(b2)))
 		}
 	default:
 		// The encoder writes Go maps in iteration order; equal bytes above may be
@@ -1446,9 +1384,9 @@ func c27Check(t *testing.T, r *vlib.Run, enc *jsonenc.Encoder, c c27Case) {
 			}
 
 			if c27DiffPath(b1, b3) == "" {
-				diff("reencode-member-order-differs", "", fmt.Sprintf("encoding the same decoded object again gives the same JSON value in a different member order: reencoded=%s", c27short(b3)))
+				diff("reencode-member-order-differs", "", fmt.Sprintf("encoding the same decoded object again gives the same JSON value in a different member order: reencoded=%s", vfxShort(b3)))
 			} else {
-				diff("reencode-unstable", "", fmt.Sprintf("encoding the same decoded object again gives different bytes: %s", c27short(b3)))
+				diff("reencode-unstable", "", fmt.Sprintf("encoding the same decoded object again gives different bytes: %s", vfxShort(b3)))
 			}
 
 			break
@@ -1477,10 +1415,3 @@ func c27Check(t *testing.T, r *vlib.Run, enc *jsonenc.Encoder, c c27Case) {
 	}
 }
 
-func c27short(b []byte) string {
-	if len(b) > 700 {
-		return string(b[:700]) + "...(" + fmt.Sprint(len(b)) + " bytes)"
-	}
-
-	return string(b)
-}
